@@ -27,8 +27,9 @@ type c26Key struct{ Sub, Seq uint32 }
 func (k c26Key) String() string { return fmt.Sprintf("%d/%d", k.Sub, k.Seq) }
 
 type c26Fault struct {
-	After int64  `json:"after_requests"` // requests seen since the previous fault (or since steady state)
-	Kind  string `json:"kind"`           // channel-loss | session-loss | restart
+	After int64  `json:"after_requests"`                         // requests seen since the previous fault (or since steady state)
+	Kind  string `json:"kind"`                                   // channel-loss | session-loss | restart
+	Lose  int    `json:"notifications_lost_in_flight,omitempty"` // messages the server has sent when the connection breaks but which never arrive
 }
 
 type c26Case struct {
@@ -80,6 +81,8 @@ type c26Srv struct {
 	goodAck  map[c26Key]bool
 	pubSeen  int64
 	log      []string
+
+	republished, republishMiss, lost int64
 
 	life    sync.RWMutex // held shared by request handlers, exclusively by a restart
 	minConn int          // connections with a lower index belong to a previous life of the server
@@ -204,6 +207,9 @@ func (s *c26Srv) handle(sc *refpeer.SrvConn, m *refpeer.Msg) {
 		msg := sub.queue[req.RetransmitSequenceNumber]
 		if msg != nil {
 			s.sent[c26Key{sub.id, msg.SequenceNumber}]++
+			s.republished++
+		} else {
+			s.republishMiss++
 		}
 		s.logf("conn %d: Republish %d/%d -> %v", sc.Index, req.SubscriptionID, req.RetransmitSequenceNumber, msg != nil)
 		s.mu.Unlock()
@@ -341,10 +347,40 @@ func (s *c26Srv) tickN(n int64) {
 	s.faults = s.faults[1:]
 	s.reqCount = 0
 	s.nfaults++
-	go s.inject(f.Kind)
+	go s.inject(f.Kind, f.Lose)
 }
 
-func (s *c26Srv) inject(kind string) {
+// loseInFlight makes n notification messages that are "on the wire" when the connection breaks: they are in the
+// retransmission queues, the publish requests they answered are gone, the client never sees them unless it asks
+// for them again.
+func (s *c26Srv) loseInFlight(n int) {
+	for ; n > 0 && len(s.held) > 0; n-- {
+		p := s.held[0]
+		s.held = s.held[1:]
+		var sub *c26SrvSub
+		for _, x := range s.subs {
+			if x.sess == p.sess && (sub == nil || x.id < sub.id) {
+				sub = x
+			}
+		}
+		if sub == nil {
+			continue
+		}
+		sub.seq++
+		dcn := &ua.DataChangeNotification{DiagnosticInfos: []*ua.DiagnosticInfo{}}
+		for _, h := range sub.handles {
+			dcn.MonitoredItems = append(dcn.MonitoredItems, &ua.MonitoredItemNotification{ClientHandle: h, Value: &ua.DataValue{EncodingMask: ua.DataValueValue, Value: ua.MustVariant(int64(sub.id)<<32 | int64(sub.seq))}})
+		}
+		eo := ua.NewExtensionObject(dcn)
+		eo.UpdateMask()
+		sub.queue[sub.seq] = &ua.NotificationMessage{SequenceNumber: sub.seq, PublishTime: time.Now(), NotificationData: []*ua.ExtensionObject{eo}}
+		s.sent[c26Key{sub.id, sub.seq}]++
+		s.lost++
+		s.logf("message %d/%d lost in flight", sub.id, sub.seq)
+	}
+}
+
+func (s *c26Srv) inject(kind string, lose int) {
 	if kind == "restart" {
 		s.life.Lock()
 		defer s.life.Unlock()
@@ -356,6 +392,9 @@ func (s *c26Srv) inject(kind string) {
 		s.faultInRecreate = true
 	}
 	s.reconnecting = true
+	if kind != "restart" {
+		s.loseInFlight(lose)
+	}
 	switch kind {
 	case "session-loss":
 		s.srv.ForgetSessions()
@@ -671,6 +710,11 @@ func c26One(c *fw.Ctx, cs c26Case) {
 	st.mu.Unlock()
 	c.Eval(int64(nsent))
 	c.Class("messages-sent", int64(nsent))
+	st.mu.Lock()
+	c.Class("republish-requests-served-from-the-queue", st.republished)
+	c.Class("messages-lost-in-flight", st.lost)
+	c.Class("republish-requests-not-available", st.republishMiss)
+	st.mu.Unlock()
 	c.Class("messages-acknowledged", int64(nack))
 	if !ok {
 		cs.Detail = fmt.Sprintf("received by the application but not acknowledged within 8000 heartbeats of keep-alive traffic: %v (sent %d, acknowledged %d)", unacked(), nsent, nack)
@@ -723,7 +767,11 @@ func c26Run(c *fw.Ctx) error {
 					after = int64(25 + r.Intn(40))
 				}
 			}
-			cs.Faults = append(cs.Faults, c26Fault{After: after, Kind: kind})
+			fl := c26Fault{After: after, Kind: kind}
+			if kind != "restart" {
+				fl.Lose = r.Intn(3)
+			}
+			cs.Faults = append(cs.Faults, fl)
 		}
 		c.Journal(i, cs)
 		c26One(c, cs)
@@ -741,7 +789,7 @@ func init() {
 	fw.Register("C26", fw.Spec{
 		Plan: func(tier string) fw.Plan {
 			p := fw.Plan{Batches: 8, TimeoutS: 1500, MinNontrivial: 200, Level: "exploration",
-				Rule:        "the real client (auto-reconnect) with 1-3 subscriptions of 1-3 items against the scripted server, which models subscriptions per session with retransmission queues, publishes data and keep-alives every 1-4 ms throughout and keeps a ledger of every message written and every acknowledgement given; 1-3 faults (connections dropped with the session kept, with the sessions forgotten, or a restart that also forgets the subscriptions and restarts the ids), the first after 1-12 requests of steady state, the others 1-12 requests later (inside the reconnect) or 25-64 requests later (after it: restored subscriptions are restored again); items of a subscription are created with two different TimestampsToReturn values; TransferSubscriptions supported / unsupported / all ids invalid; oracle after the client is stably Connected: every subscription of the application receives a newly sent message containing all of its items (10000 heartbeats), then under keep-alive traffic every message the application received from a subscription that still exists is acknowledged (8000 heartbeats), no message is acknowledged again on a connection on which its result was already returned, none is acknowledged that was never sent, and none is acknowledged Good without having reached the application; distinct = fault histories",
+				Rule:        "the real client (auto-reconnect) with 1-3 subscriptions of 1-3 items against the scripted server, which models subscriptions per session with retransmission queues, publishes data and keep-alives every 1-4 ms throughout and keeps a ledger of every message written and every acknowledgement given; 1-3 faults (connections dropped with the session kept, with the sessions forgotten - in both cases with 0-2 notification messages lost in flight, which only a Republish brings back - or a restart that also forgets the subscriptions and restarts the ids), the first after 1-12 requests of steady state, the others 1-12 requests later (inside the reconnect) or 25-64 requests later (after it: restored subscriptions are restored again); items of a subscription are created with two different TimestampsToReturn values; TransferSubscriptions supported / unsupported / all ids invalid; oracle after the client is stably Connected: every subscription of the application receives a newly sent message containing all of its items (10000 heartbeats), then under keep-alive traffic every message the application received from a subscription that still exists is acknowledged (8000 heartbeats), no message is acknowledged again on a connection on which its result was already returned, none is acknowledged that was never sent, and none is acknowledged Good without having reached the application; distinct = fault histories",
 				Assumptions: []string{"heartbeat clock; a client that does not reach a stable Connected state is inconclusive here (C25 decides that)"}}
 			if tier == "thorough" {
 				p.Batches, p.TimeoutS, p.MinNontrivial = 16, 3400, 5000
